@@ -11,7 +11,7 @@ import "time"
 // buffered element is overdue by more than that.
 
 // gosym: mode=int
-func VerifX10_run() {
+func VerifC10_run() {
 	M := vParam("M", 2)
 	inacc := uint(vParam("inacc", 100))
 	C := int64(vParam("c", 4))
